@@ -423,11 +423,15 @@ pub struct HandlerPlan {
     pub resp_delay_ms: u64,
     pub fail: bool,
     pub upgrade: bool,
+    /// answer the first arrival of this request (no `hop=1` in its query) with this status and a
+    /// Location header pointing at this URI (which carries `hop=1`), and an empty body
+    #[serde(default)]
+    pub redirect: Option<(u16, String)>,
 }
 
 impl Default for HandlerPlan {
     fn default() -> Self {
-        HandlerPlan { delay_ms: 0, resp_len: 5, resp_chunk: 64, resp_delay_ms: 0, fail: false, upgrade: false }
+        HandlerPlan { delay_ms: 0, resp_len: 5, resp_chunk: 64, resp_delay_ms: 0, fail: false, upgrade: false, redirect: None }
     }
 }
 
@@ -448,6 +452,9 @@ pub struct Seen {
     pub body_ok: bool,
     pub body_len: usize,
     pub problem: Option<String>,
+    /// 1 when the request is the follow-up of a redirect (its query carries hop=1)
+    pub hop: u8,
+    pub user_agent: Option<String>,
 }
 
 #[derive(Default)]
@@ -507,6 +514,8 @@ pub async fn handle(ctx: HandlerCtx, conn: u32, mut req: http::Request<hyperdriv
             body_ok: false,
             body_len: 0,
             problem: None,
+            hop: if req.uri().query().map(|q| q.split('&').any(|kv| kv == "hop=1")).unwrap_or(false) { 1 } else { 0 },
+            user_agent: req.headers().get(http::header::USER_AGENT).and_then(|v| v.to_str().ok()).map(|s| s.to_string()),
         });
         log.seen.len() - 1
     };
@@ -542,7 +551,9 @@ pub async fn handle(ctx: HandlerCtx, conn: u32, mut req: http::Request<hyperdriv
                 }
             }
         }
-        if let Some(l) = declared_len {
+        // (after a redirect the replayed headers still announce the original body length)
+        let hop = ctx.log.lock().seen[idx].hop;
+        if let (Some(l), 0) = (declared_len, hop) {
             if l != got {
                 problem = Some(format!("request {} declared {} body bytes, handler received {}", id, l, got));
             }
@@ -598,6 +609,17 @@ pub async fn handle(ctx: HandlerCtx, conn: u32, mut req: http::Request<hyperdriv
         resp.headers_mut().insert("x-req-id", id.to_string().parse().unwrap());
         ctx.log.lock().seen[idx].responded_ms = Some(ctx.net.now_ms());
         return Ok(resp);
+    }
+    if let Some((status, location)) = &plan.redirect {
+        if ctx.log.lock().seen[idx].hop == 0 {
+            let mut resp = http::Response::new(ChunkBody::default());
+            *resp.status_mut() = http::StatusCode::from_u16(*status).unwrap();
+            resp.headers_mut().insert(http::header::LOCATION, location.parse().unwrap());
+            resp.headers_mut().insert("x-req-id", id.to_string().parse().unwrap());
+            resp.headers_mut().insert("x-origin", ctx.origin.parse().unwrap());
+            ctx.log.lock().seen[idx].responded_ms = Some(ctx.net.now_ms());
+            return Ok(resp);
+        }
     }
     if req.method() == http::Method::CONNECT {
         // no tunnelling in this handler: an ordinary refusal keeps HTTP/1 framing simple
